@@ -85,7 +85,7 @@ impl Prop for C01 {
         vec!["Log: the platform ln is within one ulp of the true logarithm (the property grants exactly that)".into()]
     }
     fn cases(&self, tier: Tier) -> u64 {
-        tier.pick(400_000, 10_000_000)
+        tier.pick(1_000_000, 20_000_000)
     }
     fn strategy(&self, _tier: Tier) -> BoxedStrategy<Case> {
         let general = (0u8..19, 0usize..=12, any::<u8>()).prop_flat_map(|(form, nlen, wide)| {
